@@ -97,7 +97,8 @@ def walkDir (s : Store) (v : View) (vid : Nat) : Nat → WState → Bytes → Na
       | .ok (.infos l) => (st1, l, none)
       | .err e =>
         let (st2, e2) := callFn st1 path kind (some e)
-        (st2, [], if e2 != .none then some e2 else none)
+        -- a SkipDir answer to the report of the ReadDir error skips this directory only (as filepath.WalkDir)
+        (st2, [], if e2 != .none then some (if e2 == .skipDir then .none else e2) else none)
       | _ => (st1, [], none)
     match stop with
     | some e => (st2, e)
